@@ -1,2 +1,59 @@
-(* Props/C05.v *)
+(* Props/C05.v — property C05 (message construction and key/suffix rules): statements only. *)
 From ChiaV.Base Require Import Bytes.
+From ChiaV.Clvm Require Import Sexp Ints.
+From ChiaV.Gen Require Import Opcodes Ladders.
+From ChiaV.Cond Require Import Model Spec Facts SigFacts.
+Open Scope N_scope.
+
+(* what is appended to the message of each bound AGG_SIG opcode: the coin attributes the opcode
+   selects, then that opcode's domain-separation constant *)
+Theorem C05_suffix_table : forall K s,
+  agg_sig_suffix K Spec.AGG_SIG_ME s = sp_coin_id s ++ c_me K /\
+  agg_sig_suffix K Spec.AGG_SIG_PARENT s = sp_parent s ++ c_parent K /\
+  agg_sig_suffix K Spec.AGG_SIG_PUZZLE s = sp_ph s ++ c_puzzle K /\
+  agg_sig_suffix K Spec.AGG_SIG_AMOUNT s = u64_to_bytes (sp_amount s) ++ c_amount K /\
+  agg_sig_suffix K Spec.AGG_SIG_PUZZLE_AMOUNT s = sp_ph s ++ u64_to_bytes (sp_amount s) ++ c_puzzle_amount K /\
+  agg_sig_suffix K Spec.AGG_SIG_PARENT_AMOUNT s = sp_parent s ++ u64_to_bytes (sp_amount s) ++ c_parent_amount K /\
+  agg_sig_suffix K Spec.AGG_SIG_PARENT_PUZZLE s = sp_parent s ++ sp_ph s ++ c_parent_puzzle K.
+Proof. exact suffix_table. Qed.
+
+(* amounts enter the signed text in the canonical CLVM integer form *)
+Theorem C05_amount_suffix_canonical : forall K s, sp_amount s < 2 ^ 64 ->
+  agg_sig_suffix K Spec.AGG_SIG_AMOUNT s = canon_n (sp_amount s) ++ c_amount K /\
+  agg_sig_suffix K Spec.AGG_SIG_PUZZLE_AMOUNT s = sp_ph s ++ canon_n (sp_amount s) ++ c_puzzle_amount K /\
+  agg_sig_suffix K Spec.AGG_SIG_PARENT_AMOUNT s = sp_parent s ++ canon_n (sp_amount s) ++ c_parent_amount K.
+Proof. exact suffix_amount_canonical. Qed.
+
+(* an applied AGG_SIG condition: the key is valid and not infinity, an UNSAFE message passed the
+   suffix ban, and with signature checking on exactly one pair (key, message ++ suffix) is added *)
+Theorem C05_condition_adds_exactly_its_pair : forall vk K fl st op pk msg st',
+  apply_condition vk K fl st (CAggSig op pk msg) = Ok st' ->
+  vk pk = true /\
+  (op = AGG_SIG_UNSAFE -> check_agg_sig_unsafe_message K msg = Ok tt) /\
+  s_pkm_pairs_rev (l_state st') =
+    if f_dont_validate fl then s_pkm_pairs_rev (l_state st)
+    else (pk, if op =? AGG_SIG_UNSAFE then msg else msg ++ agg_sig_suffix K op (l_spend st)) :: s_pkm_pairs_rev (l_state st).
+Proof. exact agg_sig_pushes_pair. Qed.
+
+Theorem C05_invalid_or_infinity_key_rejected : forall vk K fl st op pk msg,
+  vk pk = false -> exists e, apply_condition vk K fl st (CAggSig op pk msg) = Err e.
+Proof. exact agg_sig_invalid_key_rejected. Qed.
+
+(* AGG_SIG_UNSAFE messages of 32 bytes or more ending in any of the seven constants are rejected *)
+Theorem C05_unsafe_suffix_banned : forall K msg,
+  check_agg_sig_unsafe_message K msg = Ok tt <->
+  (length msg < 32)%nat \/
+  Forall (fun c => ends_with msg c = false)
+         [c_me K; c_parent K; c_puzzle K; c_amount K; c_puzzle_amount K; c_parent_amount K; c_parent_puzzle K].
+Proof. exact unsafe_suffix_banned. Qed.
+
+Theorem C05_ends_with_is_suffix : forall buf suffix,
+  ends_with buf suffix = true <-> exists pre, buf = pre ++ suffix.
+Proof. exact ends_with_spec. Qed.
+
+(* any single altered component (message, attribute bytes of the same length, constant) alters the text *)
+Theorem C05_signed_text_injective : forall msg msg' attr attr' k k' : bytes,
+  (msg ++ attr ++ k = msg' ++ attr ++ k -> msg = msg') /\
+  (length attr = length attr' -> msg ++ attr ++ k = msg ++ attr' ++ k -> attr = attr') /\
+  (msg ++ attr ++ k = msg ++ attr ++ k' -> k = k').
+Proof. exact signed_text_injective. Qed.
